@@ -118,13 +118,16 @@ Definition w_term (s : str) (scope : list str) (x : str) (n : Z) (_ : nat) : out
   else if str_eqb s Sn && str_eqb x Sn then Ret n
   else if str_eqb s Scn && str_eqb x Sn then (if mem Sc scope then Ret (3 * n) else Raise ECalc)
   else Raise ECalc.
+(* check_scope of the summand: "c*n" uses c, every other summand only its own variable *)
+Definition w_scope (s : str) (scope : list str) (x : str) : outcome unit :=
+  if str_eqb s Scn then (if mem Sc scope || str_eqb x Sc then Ret tt else Raise ECalc) else Ret tt.
 Definition w_valid (s : str) : outcome bool := Ret true.
 Definition w_cfg (answers : list str) (pos : list (option Z)) (eo : Z) (instr scope : list str) : config :=
   mkConfig pos answers instr (p_lit eo) (p_lit 1000) (p_lit 80) 2 0 scope [Ssin].
 Definition w_grade (cfg : config) (inputs : list str) : outcome bool :=
-  grade 0 Z.add Z.eqb w_parses (fun _ => false) (fun _ => false) w_limit w_term w_valid cfg inputs.
+  grade 0 Z.add Z.eqb w_parses (fun _ => false) (fun _ => false) w_limit w_scope w_term w_valid cfg inputs.
 Definition w_author_sum (cfg : config) : outcome Z :=
-  evaluate_fields 0 Z.add w_parses (fun _ => false) (fun _ => false) w_limit w_term cfg (c_answers cfg) (c_scope cfg) 0.
+  evaluate_fields 0 Z.add w_parses (fun _ => false) (fun _ => false) w_limit w_scope w_term cfg (c_answers cfg) (c_scope cfg) 0.
 
 Definition all_four : list (option Z) := [Some 1; Some 2; Some 3; Some 4].
 
@@ -169,17 +172,18 @@ Lemma author_failure_refuted :
   (w_author_sum author_nan_cfg = Raise EOther /\ w_grade author_nan_cfg [S1; S4; Snn; Sn] = Raise EGeneric).
 Proof. repeat split; vm_compute; reflexivity. Qed.
 
-(* (2) an instructor-only variable in a summand that is never evaluated (empty index set) *)
+(* ---- the two repaired defects (fix commits 390fac8, e54e9a1 in /repo): now positive examples ---- *)
+(* an instructor-only variable in a summand over an EMPTY index set is rejected like over a non-empty one *)
 Definition instr_cfg (lo hi : str) (eo : Z) := w_cfg [lo; hi; Sn; Sn] all_four eo [Sc] [Sc].
-Lemma instructor_var_refuted :
-  (* sum over the odd integers of [2,2] of c*n : graded, no error *)
-  w_grade (instr_cfg S2 S2 1) [S2; S2; Scn; Sn] = Ret true
-  (* while with a non-empty index set the same summand is rejected *)
-  /\ w_grade (instr_cfg S1 S2 0) [S1; S2; Scn; Sn] = Raise ECalc.
-Proof. split; vm_compute; reflexivity. Qed.
+Lemma ex_instructor_var_rejected :
+  w_grade (instr_cfg S2 S2 1) [S2; S2; Scn; Sn] = Raise ECalc
+  /\ w_grade (instr_cfg S1 S2 0) [S1; S2; Scn; Sn] = Raise ECalc
+  (* the author may use it *)
+  /\ w_grade (w_cfg [S1; S2; Scn; Sn] all_four 0 [Sc] [Sc]) [S1; S2; Sn; Sn] = Ret false.
+Proof. repeat split; vm_compute; reflexivity. Qed.
 
-(* (3) an instructor-only variable is accepted as the student's summation variable *)
-Lemma dummy_instructor_var_refuted :
+(* an instructor-only variable is refused as the student's summation variable *)
+Lemma ex_instructor_var_as_dummy_rejected :
   mem Sc (c_scope (w_cfg [S1; S2; Snn; Sn] all_four 0 [Sc] [Sc])) = true
-  /\ w_grade (w_cfg [S1; S2; Snn; Sn] all_four 0 [Sc] [Sc]) [S1; S2; Scc; Sc] = Ret true.
+  /\ w_grade (w_cfg [S1; S2; Snn; Sn] all_four 0 [Sc] [Sc]) [S1; S2; Scc; Sc] = Raise (ESummation MConflict).
 Proof. split; vm_compute; reflexivity. Qed.
